@@ -4,6 +4,7 @@ import Wx.Driver.Fs
 import Wx.Driver.Pure
 import Wx.Driver.Tables
 import Wx.Driver.Err
+import Wx.Driver.Flags
 import Wx.Driver.Throttle
 /-! one line in, one line out; `wxdriver <stream> [none|all]` -/
 
@@ -21,6 +22,7 @@ def main (args : List String) : IO UInt32 := do
   | "tables" => loop Wx.Driver.Tables.handleLine stdin; return 0
   | "err" => loop Wx.Driver.Err.handleLine stdin; return 0
   | "throttle" => loop Wx.Driver.Throttle.handleLine stdin; return 0
+  | "flags" => loop Wx.Driver.Flags.handleLine stdin; return 0
   | "pure" => loop Wx.Driver.Pure.handleLine stdin; return 0
   | "job" => loop (Wx.Driver.Job.handleLine (Wx.Driver.Job.cfgOf cfg)) stdin; return 0
   | "fs" => loop (Wx.Driver.Fs.handleLine (if cfg == "all" then (⟨true, true⟩ : Fw.Fixes) else {})) stdin; return 0
